@@ -35,20 +35,103 @@ package hap
 // pvshared(h): the X25519 shared secret a pair-verify handler currently holds (abstraction of the implementing type)
 //@ ghost pvshared(ref) seq
 
+// a handler changes only the state of pairing controllers and their sessions
+//@ pred noErrCode(c) = len(cval(c, 7)) == 0 || seqat(cval(c, 7), 0) == 0
 //@ invoke "github.com/brutella/hc/hap.PairVerifyHandler.Handle"(h, in) (out, err)
 //@   requires in != nil
-//@   modifies heap, pvshared(h)
+//@   modifies alltype("github.com/brutella/hc/hap/pair.SetupServerController"), alltype("github.com/brutella/hc/hap/pair.SetupServerSession"), alltype("github.com/brutella/hc/hap/pair.VerifyServerController"), alltype("github.com/brutella/hc/hap/pair.VerifySession"), pvshared(h)
 //@   ensures answered: err == nil ==> out != nil && ref(out) > 0
-//@   ensures auth: err == nil && len(cval(out, 6)) > 0 && seqat(cval(out, 6), 0) == 4 && len(cval(out, 7)) == 0 ==> authOK(pvshared(h))
+//@   ensures auth: err == nil && len(cval(out, 6)) > 0 && seqat(cval(out, 6), 0) == 4 && noErrCode(out) ==> authOK(pvshared(h))
 //@ invoke "github.com/brutella/hc/hap.PairVerifyHandler.SharedKey"(h) (k)
 //@   pure
 //@   ensures seq(k) == pvshared(h)
 //@ invoke "github.com/brutella/hc/hap.ContainerHandler.Handle"(h, in) (out, err)
 //@   requires in != nil
-//@   modifies heap, dbver, lastname, lastkey, dbhas, dbkey, srpkey, keyset
+//@   modifies alltype("github.com/brutella/hc/hap/pair.SetupServerController"), alltype("github.com/brutella/hc/hap/pair.SetupServerSession"), alltype("github.com/brutella/hc/hap/pair.VerifyServerController"), alltype("github.com/brutella/hc/hap/pair.VerifySession"), dbver, lastname, lastkey, dbhas, dbkey, srpkey, keyset
 //@   ensures answered: err == nil ==> out != nil && ref(out) > 0
 
 // ---- context (in-memory store shared by all connections), seen through its interface
 //@ invoke "github.com/brutella/hc/hap.Context.GetSecuredDevice"(ctx) (d)
 //@   pure
 //@   ensures d != nil
+
+// ---- sessions (C01, C03, C10)
+// sskey(c): the shared secret a secure session's keys were derived from.
+// verified(s): the session's current cryptographer is installed and came from an authenticated pair-verify exchange.
+// subs(s, c): session s is subscribed to characteristic c.
+//@ ghost sskey(ref) seq
+//@ ghost subs(ref, ref) bool
+
+//@ invoke "github.com/brutella/hc/hap.Session.Encrypter"(s) (e)
+//@   pure
+//@   ensures e != nil ==> verified(s)
+//@ invoke "github.com/brutella/hc/hap.Session.Decrypter"(s) (d)
+//@   modifies *s, verified(s)
+//@ invoke "github.com/brutella/hc/hap.Session.SetCryptographer"(s, c)
+//@   requires auth: c != nil ==> authOK(sskey(c))
+//@   modifies *s
+//@ invoke "github.com/brutella/hc/hap.Session.PairVerifyHandler"(s) (h)
+//@   pure
+//@ invoke "github.com/brutella/hc/hap.Session.SetPairVerifyHandler"(s, h)
+//@   modifies *s
+//@ invoke "github.com/brutella/hc/hap.Session.PairSetupHandler"(s) (h)
+//@   pure
+//@ invoke "github.com/brutella/hc/hap.Session.SetPairSetupHandler"(s, h)
+//@   modifies *s
+//@ invoke "github.com/brutella/hc/hap.Session.Connection"(s) (c)
+//@   pure
+//@ invoke "github.com/brutella/hc/hap.Session.Subscribe"(s, c)
+//@   modifies subs(s, c)
+//@   ensures subs(s, c)
+//@ invoke "github.com/brutella/hc/hap.Session.Unsubscribe"(s, c)
+//@   modifies subs(s, c)
+//@   ensures !subs(s, c)
+//@ invoke "github.com/brutella/hc/hap.Session.IsSubscribedTo"(s, c) (b)
+//@   pure
+//@   ensures b == subs(s, c)
+
+// ---- context: every request handled by net/http arrived on an accepted connection, for which listener.Accept registered
+// a session under the connection's remote address (assumption about net/http dispatch, see nethttp.spec)
+// the only implementation of Session is *session (NewSession)
+//@ axiom sessionType: forallv("r:ref", sessOf(r) != nil && typeis(sessOf(r), "*github.com/brutella/hc/hap.session") && ref(sessOf(r)) > 0 && wellformed(sessOf(r)), sessOf(r))
+//@ spec func reqKey(ref) iface
+//@ spec func sessOfKey(iface) iface
+//@ invoke "github.com/brutella/hc/hap.Context.GetConnectionKey"(ctx, r) (k)
+//@   pure
+//@   ensures k == reqKey(r)
+//@ invoke "github.com/brutella/hc/hap.Context.Get"(ctx, key) (v)
+//@   pure
+//@   ensures forallv("r:ref", key == reqKey(r) ==> v == sessOf(r) && v != nil, reqKey(r))
+//@ invoke "github.com/brutella/hc/hap.Context.GetSessionForRequest"(ctx, r) (s)
+//@   pure
+//@   ensures s == sessOf(r) && s != nil
+
+// ---- the session implementation (C01, C03)
+// Object invariant: whatever cryptographer a session holds (current or pending) was derived from an authenticated
+// pair-verify exchange. Established by NewSession (both nil), preserved by the only writers of the two fields.
+//@ pred sessInv(s) = s != nil && (s.cryptographer != nil ==> authOK(sskey(s.cryptographer))) && (s.nextCryptographer != nil ==> authOK(sskey(s.nextCryptographer)))
+//@ typeinv sessInv
+//@ abstraction verified(s) = s.cryptographer != nil && authOK(sskey(s.cryptographer))
+//@ writers C01 github.com/brutella/hc/hap.session fields cryptographer, nextCryptographer only (*github.com/brutella/hc/hap.session).Decrypter; (*github.com/brutella/hc/hap.session).SetCryptographer
+
+//@ func NewSession(connection) (s)
+//@   ensures s != nil && typeis(s, "*github.com/brutella/hc/hap.session") && fresh(s) && sessInv(asptr(s, "*github.com/brutella/hc/hap.session"))
+
+//@ func (s *session) Encrypter() (e)
+//@   refines "github.com/brutella/hc/hap.Session.Encrypter"
+//@   requires inv: sessInv(s)
+//@   ensures e == s.cryptographer
+
+//@ func (s *session) Decrypter() (d)
+//@   refines "github.com/brutella/hc/hap.Session.Decrypter"
+//@   requires inv: sessInv(s)
+//@   modifies s.cryptographer, s.nextCryptographer
+//@   ensures inv: sessInv(s)
+
+//@ func (s *session) SetCryptographer(c)
+//@   refines "github.com/brutella/hc/hap.Session.SetCryptographer"
+//@   requires inv: sessInv(s)
+//@   requires auth: c != nil ==> authOK(sskey(c))
+//@   modifies s.nextCryptographer
+//@   ensures inv: sessInv(s)
+//@   ensures unchanged(s.cryptographer)
